@@ -7,8 +7,12 @@ switch between the modelled world (symbolic exploration) and the real one (repla
 import math as _math
 import sys
 
-if '/repo' not in sys.path:
-    sys.path.insert(0, '/repo')
+import os
+# the checks always analyse /repo; VERIF_REPO exists only so that the machinery itself can be
+# tried against scratch copies (seeded changes) without touching /repo
+REPO = os.environ.get('VERIF_REPO', '/repo')
+if sys.path[0] != REPO:
+    sys.path.insert(0, REPO)
 
 import z3
 
